@@ -10,6 +10,8 @@ import (
 	"fmt"
 	"io"
 	"net"
+	"os"
+	"path/filepath"
 	"strings"
 	"sync"
 	"sync/atomic"
@@ -34,6 +36,12 @@ func (w *wireLog) add(fromClient bool, b []byte) {
 	w.mu.Lock()
 	w.events = append(w.events, ref.WireEvent{FromClient: fromClient, Data: append([]byte{}, b...)})
 	w.mu.Unlock()
+}
+
+func (w *wireLog) count() int {
+	w.mu.Lock()
+	defer w.mu.Unlock()
+	return len(w.events)
 }
 
 func (w *wireLog) snapshot() []ref.WireEvent {
@@ -389,11 +397,32 @@ func handshakePair(ccfg, scfg *gmtls.Config, mut mutator) *pairOutcome {
 	tick := time.NewTicker(10 * time.Millisecond)
 	defer tick.Stop()
 	idle, halfIdle := 0, 0
+	// bounded progress: a handshake endpoint that is neither finished nor waiting for input, while nothing moves on the wire
+	// for two minutes of wall-clock time, is spinning (a step of a handshake costs milliseconds). That is reported as "does
+	// not return" for the running property; the pair is abandoned (its goroutine keeps a core busy until the process ends).
+	lastMove, lastEvents := time.Now(), -1
 	for {
 		select {
 		case <-done:
 			return out
 		case <-tick.C:
+			if n := log.count() + int(atomic.LoadInt32(&cliFin)) + int(atomic.LoadInt32(&srvFin)); n != lastEvents {
+				lastEvents, lastMove = n, time.Now()
+			} else if time.Since(lastMove) > 2*time.Minute {
+				who := "client"
+				if atomic.LoadInt32(&cliFin) == 1 || (cm.in.parkedEmpty() && !sm.in.parkedEmpty()) {
+					who = "server"
+				}
+				out.stuck = "the " + who + " endpoint neither returned nor waited for input for two minutes with nothing moving on the wire (spinning)"
+				if curCtx != nil {
+					curCtx.Rep.Violation(curCtx.Prop+"/Handshake/does-not-return/"+who+"-spins", out.stuck, map[string]interface{}{"wire_events": lastEvents})
+				}
+				cm.Close()
+				sm.Close()
+				time.Sleep(300 * time.Millisecond) // lets the endpoint that is not spinning see the closed pipe and return
+				noteSpin()
+				return out
+			}
 			if cm.in.parkedEmpty() && sm.in.parkedEmpty() && cm.in.parkedEmpty() {
 				idle++
 			} else {
@@ -490,3 +519,17 @@ func suiteName(id uint16) string {
 }
 
 var _ crypto.Signer = (*sm2.PrivateKey)(nil)
+
+// noteSpin is called whenever an endpoint was found not to return (it is abandoned and keeps a core busy). After a few of
+// them the machine is saturated by abandoned spinners and the rest of the workload would only time out: the run ends
+// there, with the violations recorded so far (a run that found a hang has its verdict).
+var spinCount int32
+
+func noteSpin() {
+	if atomic.AddInt32(&spinCount, 1) < 3 || curCtx == nil {
+		return
+	}
+	curCtx.Rep.Note("run ended early: three endpoints were found spinning; the remaining cases were not executed")
+	curCtx.Rep.Write(filepath.Join(curCtx.Out, "result.json"))
+	os.Exit(0)
+}
